@@ -120,7 +120,51 @@ def constant_subtrees_defined(text_rhs: str) -> bool:
 
     ev = E.Evaluator({}, {}, {})
 
+    def const_branches(n):
+        """constant branches of a (nested) Conditional standing directly as an operand"""
+        if isinstance(n, ast.Call) and isinstance(n.func, ast.Name) and n.func.id == "Conditional" and len(n.args) == 3:
+            out = []
+            for br in n.args[1:]:
+                if is_const(br) and not (isinstance(br, ast.Call) and getattr(br.func, "id", "") == "Conditional"):
+                    out.append(br)
+                else:
+                    out += const_branches(br)
+            return out
+        if isinstance(n, ast.UnaryOp):
+            return [ast.UnaryOp(op=n.op, operand=b) for b in const_branches(n.operand)]
+        return []
+
+    def branch_applications_defined(n):
+        """f(Conditional(c, const, x)) / Conditional(...)**k / a / Conditional(...): sympy applies the operation to the
+        constant branch when the expression is built (sqrt(-0.5) -> 0.707*I); such dead-branch constants are not generated."""
+        trials = []
+        if isinstance(n, ast.Call) and isinstance(n.func, ast.Name) and n.func.id in E._FUNCS and n.args:
+            for k, a in enumerate(n.args):
+                for b in const_branches(a):
+                    args = list(n.args)
+                    args[k] = b
+                    if all(is_const(x) for x in args):
+                        trials.append(ast.Call(func=n.func, args=args, keywords=[]))
+        if isinstance(n, ast.BinOp) and isinstance(n.op, (ast.Pow, ast.Div)):
+            for b in const_branches(n.left):
+                if is_const(n.right):
+                    trials.append(ast.BinOp(left=b, op=n.op, right=n.right))
+            for b in const_branches(n.right):
+                if is_const(n.left):
+                    trials.append(ast.BinOp(left=n.left, op=n.op, right=b))
+        for t in trials:
+            try:
+                node2, src2 = E.parse_expr(ast.unparse(ast.fix_missing_locations(t)))
+                E.Evaluator({}, {}, {}).expr(node2, src2)
+            except (E.Undefined, E.Undecidable):
+                return False
+            except E.Unsupported:
+                return False
+        return True
+
     def visit(n):
+        if not branch_applications_defined(n):
+            return False
         if isinstance(n, ast.Call) and isinstance(n.func, ast.Name) and n.func.id in ("Lt", "Gt", "Le", "Ge", "Eq", "Not", "And", "Or"):
             if is_const(n):
                 return False  # constant conditions are folded by sympy; not generated
